@@ -35,6 +35,7 @@ PKGS = {  # abstract package id -> (import path, package name)
     "third": (MOD + "/third/legacy", "legacy"),   # holds an (unconfigured) alias of the original type
 }
 MAX_SOLO = 48
+GENERIC_POS = ("tparam", "targ", "tparamreal")     # the configured type lives in the source package; I1 may be generic
 SEM = ("pos", "other", "srckind", "target", "level", "place")      # dimensions the contract speaks about (TLC state)
 OBS = ("templ", "listing", "fmt", "kinds")                                   # how the case is observed / spelled (TLC constants)
 DIMS = SEM + OBS
@@ -152,9 +153,11 @@ def go_type(t, quals, cn=lambda n: n):
     k = t["k"]
     if k == "named":
         return quals[t["p"]] + cn(t["n"])
-    if k == "basic":
+    if k in ("basic", "tparam"):
         return t["n"]
     a = t["a"]
+    if k == "inst":
+        return go_type(a[0], quals, cn) + "[" + ", ".join(go_type(x, quals, cn) for x in a[1:]) + "]"
     if k == "ptr":
         return "*" + go_type(a[0], quals, cn)
     if k == "slice":
@@ -218,12 +221,13 @@ class Case:
     # ---- source files
     def sources(self):
         files = {}
-        quals = {"orig": "foo.", "same": "foo2.", "alt": "bar.", "third": "legacy."}
+        quals = {"orig": "foo.", "same": "foo2.", "alt": "bar.", "third": "legacy.", "src": ""}
         qname = self.target_pkg()[1]
         lines = []
         used = set()
         for itf in self.rec["ifaces"]:
-            lines.append(f"type {itf['name']} interface {{")
+            tps = ", ".join(f"{tp['name']} {tp['constraint']}" for tp in itf.get("tparams", []))
+            lines.append(f"type {itf['name']}{'[' + tps + ']' if tps else ''} interface {{")
             for m in itf["methods"]:
                 ps = []
                 for p in m["params"]:
@@ -260,6 +264,9 @@ class Case:
             src += ["import ("] + imps + [")", ""]
         if self.target == "dstpkg" and self.place == "inpkg":
             src += ["// D is a replacement type living in the mock's own (= the source) package", self.d_decl(), ""]
+        if self.pos in GENERIC_POS:
+            src += ["// K is the configured type: it lives next to the (generic) interface", "type K string", "",
+                    "type Box[E any] struct{ V E }", ""]
         src += lines
         files[f"{self.id}/src/src.go"] = "\n".join(src)
         if self.target == "dstpkg" and self.place == "separate":
@@ -270,11 +277,12 @@ class Case:
     def mapping(self, second=False):
         """the replace-type entry of the case; second: the same source type mapped to the OTHER target"""
         key = self.cn(self.rec["key"]["n"])
+        kpath = self.srcpath if self.rec["key"]["p"] == "src" else PKGS["orig"][0]
         if second:
             to = self.rec["to2"]
-            return {PKGS["orig"][0]: {key: {"pkg-path": PKGS[to["p"]][0], "type-name": self.cn(to["n"])}}}
+            return {kpath: {key: {"pkg-path": PKGS[to["p"]][0], "type-name": self.cn(to["n"])}}}
         tp = self.target_pkg()[0]
-        return {PKGS["orig"][0]: {key: {"pkg-path": tp, "type-name": self.cn(self.rec["to"]["n"])}}}
+        return {kpath: {key: {"pkg-path": tp, "type-name": self.cn(self.rec["to"]["n"])}}}
 
     def pkg_config(self, with_setting, probe_path, force=False):
         conf = {"all": True, "dir": self.dir, "pkgname": self.pkgname, "filename": self.filename,
@@ -286,7 +294,7 @@ class Case:
             conf["require-template-schema-exists"] = False
         else:
             conf["template"] = self.templ
-        if self.templ == "matryer" and (self.target != "alias" or self.level in ("entry2x", "entry2y", "iface2x", "iface2y")):
+        if self.templ == "matryer" and (self.pos in GENERIC_POS or self.target != "alias" or self.level in ("entry2x", "entry2y", "iface2x", "iface2y")):
             # a replaced signature no longer implements the source interface: the documented switch for that.
             # (With an alias of the original type as replacement the ensure line stays on and must compile.)
             conf["template-data"] = {"skip-ensure": True}
@@ -331,7 +339,7 @@ class Case:
     def group_key(self):
         if self.level != "root":
             return None
-        return (self.srckind, self.target, self.kinds, self.id if self.target == "dstpkg" else "")
+        return (self.srckind, self.target, self.kinds, self.id if self.target == "dstpkg" or self.pos in GENERIC_POS else "")
 
 
 def refs(t):
@@ -463,7 +471,8 @@ def observe_all(ctx, drv, tree, cases, label):
             for m in d["mocks"]:
                 for mm in m["methods"]:
                     ex += [x["type"] for x in mm["params"]] + [x["type"] for x in mm["returns"]]
-            exprs.append({"id": c.id, "dst": c.dstpath, "imports": quals, "exprs": ex})
+            tps = [tp["name"] for itf in c.rec.get("ifaces", []) for tp in itf.get("tparams", [])]
+            exprs.append({"id": c.id, "dst": c.dstpath, "imports": quals, "tparams": tps, "exprs": ex})
         else:
             files.append({"id": c.id, "path": str(p), "dst": c.dstpath})
     d = ctx.mkdir(f"drv-{label}")
@@ -530,7 +539,10 @@ def abstract(t, c):
     n = t["n"]
     if t["k"] == "named" and KINDED.match(n) and getattr(c, "kinds", None) and c.cn(n.rsplit("_", 1)[0]) == n:
         n = n.rsplit("_", 1)[0]
-    return {"k": t["k"], "p": c.path_to_id.get(t["p"], t["p"]), "n": n, "a": [abstract(x, c) for x in t["a"]]}
+    pid = c.path_to_id.get(t["p"], t["p"])
+    if t["k"] == "named" and n in ("K", "Box") and t["p"] == getattr(c, "srcpath", None):
+        pid = "src"          # declared next to the interface (with an in-package mock the source package IS the file's own)
+    return {"k": t["k"], "p": pid, "n": n, "a": [abstract(x, c) for x in t["a"]]}
 
 
 def matches(o, oc):
@@ -602,7 +614,8 @@ def twin_type(t, c):
 def twin_eligible(c):
     # one mock per interface (otherwise there is no single native interface to compare with); the twin of a mock whose
     # replacement lives in its own separate destination package would need the source to import the mocks package
-    return c.templ != "probe" and c.level not in ("entry2", "entry2x", "entry2y") and not (c.target == "dstpkg" and c.place == "separate")
+    return c.templ != "probe" and c.level not in ("entry2", "entry2x", "entry2y") and not (c.target == "dstpkg" and c.place == "separate") \
+        and c.pos not in GENERIC_POS
 
 
 def twin_sources(c, ob):
@@ -1158,7 +1171,7 @@ def run(ctx):
         chosen = [tuple(rp["sig"][d] for d in DIMS)]
         uncovered = 0
     else:
-        n = 6000 if thorough else 250
+        n = 6000 if thorough else 220
         chosen, uncovered = select_cases(rows, obsdims, ctx.rng, n, 40 if thorough else 6)
         for d in unexpected_pred[:20]:
             chosen.append(tuple(d) + ("testify", "min", "gofmt", "ss"))
